@@ -17,6 +17,27 @@ type customType struct {
 }
 
 const c07ID = "https://example.com/dispatch/1"
+const c07Own = "https://example.com/dispatch/own"
+
+// one property of its own per struct, so that "carries the properties that were written" covers more than the object core
+var c07OwnField = map[string][2]string{ // Go type -> {Go field, JSON term}; the value is an IRI (a list of one for list fields)
+	"Object": {"Context", "context"}, "Actor": {"Outbox", "outbox"}, "Activity": {"Object", "object"}, "IntransitiveActivity": {"Target", "target"},
+	"Question": {"OneOf", "oneOf"}, "Collection": {"Items", "items"}, "CollectionPage": {"Next", "next"}, "OrderedCollection": {"OrderedItems", "orderedItems"},
+	"OrderedCollectionPage": {"Prev", "prev"}, "Place": {"Location", "location"}, "Profile": {"Describes", "describes"},
+	"Relationship": {"Subject", "subject"}, "Tombstone": {"Generator", "generator"}, "Link": {"Preview", "preview"},
+}
+
+func c07OwnOK(v reflect.Value) bool {
+	f, ok := c07OwnField[v.Type().Name()]
+	if !ok {
+		return true
+	}
+	fv := v.FieldByName(f[0])
+	if fv.Kind() == reflect.Slice {
+		return fv.Len() == 1 && fmt.Sprint(fv.Index(0).Interface()) == c07Own
+	}
+	return !fv.IsNil() && fmt.Sprint(fv.Interface()) == c07Own
+}
 
 func c07InstallHooks() func() {
 	oldT, oldU, oldE := ap.ItemTyperFunc, ap.JSONItemUnmarshal, ap.IsNotEmpty
@@ -52,18 +73,29 @@ func c07Value(name string, gt string) ap.Item {
 	v.Elem().FieldByName("ID").SetString(c07ID)
 	v.Elem().FieldByName("Type").SetString(name)
 	v.Elem().FieldByName("Name").Set(reflect.ValueOf(ap.NaturalLanguageValues{{Ref: ap.NilLangRef, Value: ap.Content("dispatch")}}))
+	if f, ok := c07OwnField[t.Name()]; ok {
+		fv := v.Elem().FieldByName(f[0])
+		if fv.Kind() == reflect.Slice {
+			fv.Set(reflect.ValueOf(ap.ItemCollection{ap.IRI(c07Own)}))
+		} else {
+			fv.Set(reflect.ValueOf(ap.IRI(c07Own)))
+		}
+	}
 	return v.Interface().(ap.Item)
 }
 
-func c07Doc(name string) J {
+func c07Doc(name string, gt string) J {
 	d := J{"id": c07ID, "name": "dispatch"}
+	if f, ok := c07OwnField[gt]; ok {
+		d[f[1]] = c07Own
+	}
 	if name != "" {
 		d["type"] = name
 	}
 	return d
 }
 
-func c07Describe(it ap.Item) J {
+func c07Describe(it ap.Item, carried bool) J {
 	if it == nil {
 		return J{"kind": "nothing"}
 	}
@@ -142,7 +174,7 @@ func c07Describe(it ap.Item) J {
 	})
 	var isObj, isLink, isColl bool
 	guard(func() { isObj, isLink, isColl = ap.IsObject(it), ap.IsLink(it), it.IsCollection() })
-	return J{"kind": "value", "g": g, "idok": id == c07ID, "propok": name == "dispatch", "isObject": isObj, "isLink": isLink,
+	return J{"kind": "value", "g": g, "idok": id == c07ID, "propok": name == "dispatch" && (!carried || c07OwnOK(v)), "isObject": isObj, "isLink": isLink,
 		"isCollection": isColl, "lists": lists, "helpers": helpers, "type": string(typ)}
 }
 
@@ -161,17 +193,17 @@ func c07Run(ch, name, gt string) (res J) {
 				}
 			}
 		case "json-top":
-			b, _ := json.Marshal(c07Doc(name))
+			b, _ := json.Marshal(c07Doc(name, gt))
 			it, err = ap.UnmarshalJSON(b)
 		case "json-item":
-			b, _ := json.Marshal(J{"id": "https://example.com/outer", "type": "Create", "object": c07Doc(name)})
+			b, _ := json.Marshal(J{"id": "https://example.com/outer", "type": "Create", "object": c07Doc(name, gt)})
 			var outer ap.Item
 			outer, err = ap.UnmarshalJSON(b)
 			if err == nil && outer != nil {
 				it = outer.(*ap.Activity).Object
 			}
 		case "json-list":
-			b, _ := json.Marshal(J{"id": "https://example.com/outer", "type": "Note", "tag": []interface{}{"https://example.com/first", c07Doc(name)}})
+			b, _ := json.Marshal(J{"id": "https://example.com/outer", "type": "Note", "tag": []interface{}{"https://example.com/first", c07Doc(name, gt)}})
 			var outer ap.Item
 			outer, err = ap.UnmarshalJSON(b)
 			if err == nil && outer != nil {
@@ -215,7 +247,7 @@ func c07Run(ch, name, gt string) (res J) {
 	if err != nil {
 		return J{"kind": "error", "msg": err.Error()}
 	}
-	return c07Describe(it)
+	return c07Describe(it, ch != "registry")
 }
 
 func init() {
